@@ -1,22 +1,28 @@
-(* Concrete instances for C03: a witness refuting the unrestricted round-trip law, and a
-   non-vacuity example on the bundled schema 8.3.0 (data from translator T4). *)
-From Coq Require Import List NArith.
+(* Concrete instances for C03: the witnesses of the two repaired defects (run on the unrepaired model),
+   the casefold table check, and a non-vacuity example on the bundled schema 8.3.0 (data from T4). *)
+From Coq Require Import List NArith Bool.
 From HV Require Import Base.Str Base.Res Base.SchemaData Model.Schema Model.Resolve.
-From HV Require Gen.Schema_8_3_0.
+From HV Require Gen.Schema_8_3_0 Gen.FoldTable.
 Import ListNotations.
 Local Open Scope N_scope.
 
-(* schema  A, A/#  ; text  "A/#/#/x" : short(short t) = "A/x" but short t = "A/#/x" *)
+(* CPython's casefold table meets the side conditions of the theorems *)
+Lemma casefold_table_ok : table_ok FoldTable.casefold_table = true.
+Proof. vm_compute. reflexivity. Qed.
+
+(* ---- C03-F2 (repaired): schema  A, A/#  ; text  "A/#/#/x".
+   Before the repair the walk stepped onto the placeholder: short t = "A/#/x", short(short t) = "A/x". *)
 Definition wit_schema : list str := [[65]; [65;47;35]].
 Definition wit_text : str := [65;47;35;47;35;47;120].
+Definition ascii_fold (c : N) : str := [ascii_lower c].
 
-Lemma long_short_unrestricted_refuted :
+Lemma long_short_unrestricted_refuted_before_fix :
   exists (S : list str) (sns t : str),
-    WFschema ascii_lower S = true /\
-    match build_table ascii_lower S with
+    WFschema ascii_fold S = true /\
+    match build_table ascii_fold S with
     | Ok T =>
-        let h := hedtag_init ascii_lower T sns t in
-        let hs := hedtag_init ascii_lower T sns (short_tag h) in
+        let h := hedtag_init ascii_fold (mkFixes true false) T sns t in
+        let hs := hedtag_init ascii_fold (mkFixes true false) T sns (short_tag h) in
         short_tag hs <> short_tag h /\ long_tag hs <> long_tag h
     | Exn _ => False
     end.
@@ -25,22 +31,48 @@ Proof.
   vm_compute. split; intro H; discriminate H.
 Qed.
 
+(* ---- C03-F1 (repaired): schema  Press ; folding with U+00DF -> "ss"; text "Preß/abc".
+   Before the repair the extension was cut at an index of the folded text: short form "Pressabc". *)
+Definition f1_table : list (N * str) := [(223, [115;115])].
+Definition f1_schema : list str := [[80;114;101;115;115]].
+Definition f1_text : str := [80;114;101;223;47;97;98;99].
+Definition f1_bad : str := [80;114;101;115;115;97;98;99].
+Definition f1_good : str := [80;114;101;115;115;47;97;98;99].
+
+Lemma remainder_not_verbatim_before_fix :
+  exists (tbl : list (N * str)) (S : list str) (t : str),
+    table_ok tbl = true /\ WFschema (table_fold tbl) S = true /\
+    match build_table (table_fold tbl) S with
+    | Ok T =>
+        short_tag (hedtag_init (table_fold tbl) (mkFixes false true) T [] t) = f1_bad /\
+        short_tag (hedtag_init (table_fold tbl) (mkFixes true true) T [] t) = f1_good
+    | Exn _ => False
+    end.
+Proof.
+  exists f1_table, f1_schema, f1_text. split; [vm_compute; reflexivity|]. split; [vm_compute; reflexivity|].
+  vm_compute. split; reflexivity.
+Qed.
+
 Definition names_8_3_0 : list str := map td_long Schema_8_3_0.tags.
 
-(* "ts:temporal-VALUE/duration/3 ms" in a schema loaded with namespace "ts:" *)
+(* "ts:temporal-VALUE/duration/3 ms" in a schema loaded with namespace "ts:", and the two old witnesses *)
 Definition ex_text : str := [116;115;58;116;101;109;112;111;114;97;108;45;86;65;76;85;69;47;100;117;114;97;116;105;111;110;47;51;32;109;115].
 Definition ex_entry : str := [80;114;111;112;101;114;116;121;47;68;97;116;97;45;112;114;111;112;101;114;116;121;47;68;97;116;97;45;118;97;108;117;101;47;83;112;97;116;105;111;116;101;109;112;111;114;97;108;45;118;97;108;117;101;47;84;101;109;112;111;114;97;108;45;118;97;108;117;101;47;68;117;114;97;116;105;111;110;47;35].
 Definition ex_short : str := [116;115;58;68;117;114;97;116;105;111;110;47;51;32;109;115].
 Definition ex_long : str := [116;115;58;80;114;111;112;101;114;116;121;47;68;97;116;97;45;112;114;111;112;101;114;116;121;47;68;97;116;97;45;118;97;108;117;101;47;83;112;97;116;105;111;116;101;109;112;111;114;97;108;45;118;97;108;117;101;47;84;101;109;112;111;114;97;108;45;118;97;108;117;101;47;68;117;114;97;116;105;111;110;47;51;32;109;115].
 
 Definition ex_check : bool :=
-  match build_table ascii_lower names_8_3_0 with
+  match build_table FoldTable.py_fold names_8_3_0 with
   | Ok T =>
-      let h := hedtag_init ascii_lower T [116;115;58] ex_text in
+      let h := hedtag_init FoldTable.py_fold repaired T [116;115;58] ex_text in
+      let h1 := hedtag_init FoldTable.py_fold repaired T [] [80;114;101;223;47;97;98;99] in
+      let h2 := hedtag_init FoldTable.py_fold repaired T [] [68;117;114;97;116;105;111;110;47;35;47;35;47;109;111;114;101] in
       match ht_entry h with
       | Some e => str_eqb (e_name e) ex_entry && str_eqb (short_tag h) ex_short
                   && str_eqb (long_tag h) ex_long && str_eqb (extension h) [51;32;109;115]
                   && negb (str_eqb ex_text ex_short)
+                  && str_eqb (short_tag h1) [80;114;101;115;115;47;97;98;99]
+                  && str_eqb (short_tag h2) [68;117;114;97;116;105;111;110;47;35;47;35;47;109;111;114;101]
       | None => false
       end
   | Exn _ => false
